@@ -14,9 +14,11 @@ oracle     : S.  real != S is a VIOLATION (a panic of the real engine is one too
              a class listed as an open finding in KNOWN_FINDINGS.txt and equals M's prediction.
 """
 import json
+import math
 import os
 import random
 import re
+import struct
 from fractions import Fraction
 
 from . import common as C
@@ -36,7 +38,7 @@ BIN = "c10"
 # against that tree (then the cargo build of /verif/harness is skipped).
 ALT_REPO = os.environ.get("VERIF_C10_REPO")
 ALT_BIN = os.environ.get("VERIF_C10_BIN")
-UNARY = ["neg", "recip", "abs", "numerator", "denominator", "isqrt"]
+UNARY = ["neg", "recip", "abs", "numerator", "denominator", "isqrt", "tostr", "roundtrip"]
 BINARY = ["add", "sub", "mul", "div", "quotient", "remainder", "modulo", "gcd", "lcm", "expt",
           "eq", "lt", "gt", "le", "ge"]
 INT_ONLY = {"quotient", "remainder", "modulo", "gcd", "lcm", "isqrt"}
@@ -253,6 +255,138 @@ def in_class(cls, op, xs):
 
 
 # --------------------------------------------------------------------------------------------------
+# mixed exact / inexact arithmetic (test level: Lean's Float is opaque to the kernel, so there is no
+# theorem here; the oracle is "convert the exact operand with round-to-nearest-even, then IEEE 754
+# binary64", and for comparisons the exact values, computed with python's int/Fraction/float)
+# --------------------------------------------------------------------------------------------------
+MIXED_ARITH = ["add", "sub", "mul", "div"]
+MIXED_CMP = ["eq", "lt", "gt", "le", "ge"]
+
+
+def f2hex(x):
+    return "f:%016x" % struct.unpack(">Q", struct.pack(">d", x))[0]
+
+
+def hex2f(s):
+    return struct.unpack(">d", struct.pack(">Q", int(s[2:], 16)))[0]
+
+
+def to_double(q):
+    """the exact rational q rounded to the nearest double (ties to even); +-inf on overflow."""
+    if isinstance(q, float):
+        return q
+    try:
+        return q.numerator / q.denominator          # int / int is correctly rounded in CPython
+    except OverflowError:
+        return math.inf if q > 0 else -math.inf
+
+
+def mixed_oracle(op, xs):
+    if op in MIXED_CMP:
+        a, b = xs
+        if any(isinstance(v, float) and math.isnan(v) for v in xs):
+            return "#false"
+
+        def key(v):                                   # exact value on the extended line
+            if isinstance(v, float):
+                if math.isinf(v):
+                    return (1 if v > 0 else -1, Fraction(0))
+                return (0, Fraction(v))
+            return (0, v)
+        ka, kb = key(a), key(b)
+        r = {"eq": ka == kb, "lt": ka < kb, "gt": ka > kb, "le": ka <= kb, "ge": ka >= kb}[op]
+        return "#true" if r else "#false"
+    a, b = to_double(xs[0]), to_double(xs[1])
+    try:
+        if op == "add":
+            r = a + b
+        elif op == "sub":
+            r = a - b
+        elif op == "mul":
+            r = a * b
+        else:
+            if b == 0.0:
+                if a == 0.0 or math.isnan(a):
+                    r = math.nan
+                else:
+                    neg = (math.copysign(1.0, a) < 0) != (math.copysign(1.0, b) < 0)
+                    r = -math.inf if neg else math.inf
+            else:
+                r = a / b
+    except OverflowError:
+        r = math.nan
+    return "f:nan" if math.isnan(r) else f2hex(r)
+
+
+def norm_float_text(v):
+    if v.startswith("f:") and len(v) == 18:
+        x = hex2f(v)
+        if math.isnan(x):
+            return "f:nan"
+    return v
+
+
+def gen_mixed(seed, quick):
+    rng = random.Random(seed * 7919 + 13)
+    floats = [0.0, -0.0, 1.0, -1.0, 0.5, 0.1, 1.5, -2.5, 0.3333333333333333, 1e-300, 5e-324,
+              2.2250738585072014e-308, 1.7976931348623157e308, math.inf, -math.inf, math.nan,
+              2.0 ** 31, -2.0 ** 31, 2.0 ** 32, 2.0 ** 53, 2.0 ** 53 + 2, -2.0 ** 53, 2.0 ** 62, 2.0 ** 63,
+              -2.0 ** 63, 2.0 ** 64, 1e19, 1e30, 1e100, 4.5e15]
+    exacts = [Fraction(v) for v in (0, 1, -1, 2, 3, 10, 2 ** 31 - 1, -2 ** 31, 2 ** 53 - 1, 2 ** 53, 2 ** 53 + 1,
+                                    -2 ** 53 - 1, 2 ** 62 + 1, 2 ** 63 - 1, -2 ** 63, 2 ** 63, 2 ** 63 + 1, 2 ** 64 + 1,
+                                    10 ** 19, 10 ** 30, -10 ** 30, 10 ** 400, -10 ** 400)]
+    exacts += [Fraction(1, 3), Fraction(-1, 3), Fraction(1, 10), Fraction(2 ** 31 - 1, 2), Fraction(-2 ** 31, 3),
+               Fraction(2 ** 53 + 1, 2), Fraction(10 ** 30, 3), Fraction(1, 10 ** 400), Fraction(10 ** 400, 3),
+               Fraction(3, 2 ** 63), Fraction(2 ** 64 + 1, 2 ** 53)]
+    if not quick:
+        for _ in range(60):
+            floats.append(struct.unpack(">d", struct.pack(">Q", rng.getrandbits(64)))[0])
+            n = rng.getrandbits(rng.choice([20, 54, 64, 70, 120])) - rng.getrandbits(53)
+            d = rng.choice([1, 1, 3, 7, 2 ** 31 - 1, 10 ** 20 + 1])
+            exacts.append(Fraction(n, d))
+    reqs = []
+    for op in MIXED_ARITH + MIXED_CMP:
+        for e in exacts:
+            for f in floats:
+                if op == "div" and e == 0:
+                    continue                          # exact zero divisor: Steel reports division by zero
+                reqs.append((op, [e, f]))
+                reqs.append((op, [f, e]))
+    if quick:
+        reqs = rng.sample(reqs, 1500)
+    lines = []
+    for op, xs in reqs:
+        if op == "div" and not isinstance(xs[1], float) and xs[1] == 0:
+            continue
+        lines.append((op + " " + " ".join(f2hex(x) if isinstance(x, float) else fmt(x) for x in xs), op, xs))
+    return lines
+
+
+def compare_mixed(ctx, stats, env=None):
+    items = gen_mixed(ctx.seed, ctx.quick())
+    reals = run_real([l for (l, _, _) in items], env)
+    known = {k.get("class"): k for k in ctx.load_known()}
+    ms = stats.setdefault("mixed", {"requests": 0, "evaluations": 0, "agree": 0})
+    for (line, op, xs), shapes in zip(items, reals):
+        want = mixed_oracle(op, xs)
+        ms["requests"] += 1
+        for sh, raw in shapes:
+            ms["evaluations"] += 1
+            r = norm_float_text(norm_real(raw))
+            if r == want:
+                ms["agree"] += 1
+                continue
+            if r == "panic":
+                cls = "mixed_panic"
+            elif op in MIXED_CMP:
+                cls = "mixed_comparison_through_double"
+            else:
+                cls = "mixed_arithmetic_conversion"
+            bucket = stats["known" if cls in known else "viol"].setdefault(cls, [])
+            bucket.append((len(line), line, sh, raw, "(no model: test level)", want))
+
+
+# --------------------------------------------------------------------------------------------------
 def compare(ctx, reqs, label, stats, env=None):
     model, why = run_model(reqs)
     if model is None:
@@ -400,6 +534,7 @@ def run(ctx):
     reqs, pools = gen_requests(ctx.seed, ctx.quick())
     ctx.log("generated %d requests (pool: %r)" % (len(reqs), pools))
     compare(ctx, reqs, "gen", stats)
+    compare_mixed(ctx, stats)
     if not ctx.quick():
         # the same requests with the JIT disabled (the interpreter's own opcode handlers)
         sub = reqs[::3]
@@ -443,6 +578,7 @@ def run(ctx):
         "violation_classes": {k: len(v) for k, v in stats["viol"].items()},
         "known_classes": {k: len(v) for k, v in stats["known"].items()},
         "model_vs_code_disagreements": len(stats["pending"]),
+        "mixed_exact_inexact_test_level": stats.get("mixed"),
         "notes": stats["notes"],
         "translator": tinfo,
         "negative_control": stats.get("negative_control"),
